@@ -47,7 +47,22 @@ __CPROVER_assigns(g_vh_calc_calls, g_vh_calc_pdu, g_vh_calc_alg, g_vh_calc_key, 
  *   "arithmetic overflow on unsigned -" (job flag --unsigned-overflow-check).
  * ret == OK <=> KSI_HMAC_create said OK; then *hmac is the object it made; otherwise *hmac is untouched.
  */
-#define C06_V2_CONTRACT(FN, PDU, OPT, REQTAG, RESPTAG, REQTMPL, RESPTMPL) \
+/* PDU v1: the MAC input is  header element bytes || payload element bytes  (in that order), each taken from the
+ * received raw bytes of the element if present, else from its serialization (tag 0x01 / KSI_Header template for
+ * the header; v1 request or response tag/template for the payload); request wins over response.
+ * The content is checked at a witness index g_mac_wit chosen arbitrarily up front (bounded job: element
+ * lengths <= C06_SER_MAX because of memcpy cost). */
+#define C06_V1_HRAW(t) ((t)->header->raw)
+#define C06_V1_PAY(t)  ((t)->request != NULL ? (const void *)(t)->request : (const void *)(t)->response)
+#define C06_V1_PRAW(t) ((t)->request != NULL ? (t)->request->raw : (t)->response->raw)
+#define C06_V1_PIDX(t) (C06_V1_HRAW(t) != NULL ? 0 : 1)
+#define C06_V1_HLEN(t) (C06_V1_HRAW(t) != NULL ? C06_V1_HRAW(t)->data_len : g_ser_len[0])
+#define C06_V1_PLEN(t) (C06_V1_PRAW(t) != NULL ? C06_V1_PRAW(t)->data_len : g_ser_len[C06_V1_PIDX(t)])
+#define C06_V1_HBYTES(t) (C06_V1_HRAW(t) != NULL ? (const unsigned char *)C06_V1_HRAW(t)->data : (const unsigned char *)g_ser_shadow[0])
+#define C06_V1_PBYTES(t) (C06_V1_PRAW(t) != NULL ? (const unsigned char *)C06_V1_PRAW(t)->data : (const unsigned char *)g_ser_shadow[C06_V1_PIDX(t)])
+#define C06_V1_ON(t, OPT) ((t) != NULL && (t)->ctx != NULL && (t)->ctx->options[OPT] == KSI_PDU_VERSION_1)
+
+#define C06_V2_CONTRACT(FN, PDU, OPT, REQTAG, RESPTAG, REQTMPL, RESPTMPL, REQTAG1, RESPTAG1, REQTMPL1, RESPTMPL1) \
 int FN(const PDU *t, KSI_HashAlgorithm algo_id, const char *key, KSI_DataHash **hmac) \
 __CPROVER_requires(g_ser_calls == 0 && g_hl_calls == 0 && g_mac_calls == 0 && g_mac_out == NULL && g_vh_free_calls == 0) \
 __CPROVER_ensures(IMPLIES(t == NULL || t->ctx == NULL, __CPROVER_return_value == KSI_INVALID_ARGUMENT && g_mac_calls == 0)) \
@@ -71,6 +86,23 @@ __CPROVER_ensures(IMPLIES(t != NULL && t->ctx != NULL && t->ctx->options[OPT] ==
 __CPROVER_ensures(IMPLIES(t != NULL && t->ctx != NULL && t->ctx->options[OPT] == KSI_PDU_VERSION_2 && \
 		!(key != NULL && hmac != NULL && t->header != NULL && (C06_IS_REQ(t) || C06_IS_RESP(t))), \
 		__CPROVER_return_value == KSI_INVALID_ARGUMENT && g_mac_calls == 0 && g_ser_calls == 0)) \
+/* v1: what is authenticated */ \
+__CPROVER_ensures(IMPLIES(C06_V1_ON(t, OPT) && g_mac_calls == 1, \
+		key != NULL && hmac != NULL && t->header != NULL && (t->request != NULL || t->response != NULL) && \
+		g_mac_alg == (int)algo_id && g_mac_key == key && g_hl_calls == 0 && \
+		g_ser_calls == (C06_V1_HRAW(t) != NULL ? 0 : 1) + (C06_V1_PRAW(t) != NULL ? 0 : 1) && \
+		IMPLIES(C06_V1_HRAW(t) == NULL, g_ser_res[0] == KSI_OK && g_ser_obj[0] == (const void *)t->header && g_ser_tag[0] == 0x01 && \
+				g_ser_tmpl[0] == KSI_TLV_TEMPLATE(KSI_Header)) && \
+		IMPLIES(C06_V1_PRAW(t) == NULL, g_ser_res[C06_V1_PIDX(t)] == KSI_OK && g_ser_obj[C06_V1_PIDX(t)] == C06_V1_PAY(t) && \
+				g_ser_tag[C06_V1_PIDX(t)] == (t->request != NULL ? REQTAG1 : RESPTAG1) && \
+				g_ser_tmpl[C06_V1_PIDX(t)] == (t->request != NULL ? REQTMPL1 : RESPTMPL1)) && \
+		g_mac_len == C06_V1_HLEN(t) + C06_V1_PLEN(t) && \
+		IMPLIES(g_mac_wit < g_mac_len, g_mac_wit_valid && \
+				g_mac_wit_byte == spec_pdu_v1_byte(C06_V1_HBYTES(t), C06_V1_HLEN(t), C06_V1_PBYTES(t), g_mac_wit)))) \
+__CPROVER_ensures(IMPLIES(C06_V1_ON(t, OPT) && \
+		!(key != NULL && hmac != NULL && t->header != NULL && (t->request != NULL || t->response != NULL)), \
+		__CPROVER_return_value == KSI_INVALID_ARGUMENT && g_mac_calls == 0)) \
+__CPROVER_ensures(IMPLIES(C06_V1_ON(t, OPT), IFF(__CPROVER_return_value == KSI_OK, g_mac_calls == 1 && g_mac_res == KSI_OK))) \
 /* result */ \
 __CPROVER_ensures(IMPLIES(t != NULL && t->ctx != NULL && t->ctx->options[OPT] == KSI_PDU_VERSION_2, \
 		IFF(__CPROVER_return_value == KSI_OK, g_mac_calls == 1 && g_mac_res == KSI_OK))) \
@@ -90,12 +122,14 @@ __CPROVER_assigns(*hmac, g_ser_calls, g_ser_obj, g_ser_tag, g_ser_tmpl, g_ser_re
 #define C06_IS_REQ(t)  ((t)->request != NULL || (t)->confRequest != NULL)
 #define C06_IS_RESP(t) (!C06_IS_REQ(t) && ((t)->response != NULL || (t)->confResponse != NULL))
 C06_V2_CONTRACT(KSI_AggregationPdu_calculateHmac, KSI_AggregationPdu, KSI_OPT_AGGR_PDU_VER, 0x220, 0x221,
-		KSI_TLV_TEMPLATE(KSI_AggregationReqPdu), KSI_TLV_TEMPLATE(KSI_AggregationRespPdu))
+		KSI_TLV_TEMPLATE(KSI_AggregationReqPdu), KSI_TLV_TEMPLATE(KSI_AggregationRespPdu),
+		0x201, 0x202, KSI_TLV_TEMPLATE(KSI_AggregationReq), KSI_TLV_TEMPLATE(KSI_AggregationResp))
 #endif
 #ifdef C06_EXT_CALC
 #define C06_IS_CONF(t) ((t)->confRequest != NULL || (t)->confResponse != NULL)
 #define C06_IS_REQ(t)  ((t)->request != NULL || (t)->confRequest != NULL)
 #define C06_IS_RESP(t) (!C06_IS_REQ(t) && ((t)->response != NULL || (t)->confResponse != NULL))
 C06_V2_CONTRACT(KSI_ExtendPdu_calculateHmac, KSI_ExtendPdu, KSI_OPT_EXT_PDU_VER, 0x320, 0x321,
-		KSI_TLV_TEMPLATE(KSI_ExtendReqPdu), KSI_TLV_TEMPLATE(KSI_ExtendRespPdu))
+		KSI_TLV_TEMPLATE(KSI_ExtendReqPdu), KSI_TLV_TEMPLATE(KSI_ExtendRespPdu),
+		0x301, 0x302, KSI_TLV_TEMPLATE(KSI_ExtendReq), KSI_TLV_TEMPLATE(KSI_ExtendResp))
 #endif
